@@ -147,8 +147,12 @@ def subclassesFrom(
     if name not in anchors:
         r(tags.a(name=name))
         anchors.add(name)
-    r(tags.div(tags.code(linker.taglink(cls, page_url)), ' - ',
-      epydoc2stan.format_summary(cls)))
+    row = tags.div(tags.code(linker.taglink(cls, page_url)), ' - ',
+      epydoc2stan.format_summary(cls))
+    if isPrivate(cls) and not isClassNodePrivate(cls):
+        # The node holds the entries of subclasses that are not private: only the row of the class itself is private.
+        row(class_='private')
+    r(row)
     scs = [sc for sc in cls.subclasses if sc.system is hostsystem and ' ' not in sc.fullName()
            and sc.isVisible]
     if len(scs) > 0:
